@@ -54,6 +54,13 @@ pub struct SimConfig {
     /// the wall clock moves only by explicit jumps (timers still follow virtual time)
     #[serde(default)]
     pub frozen_wall: bool,
+    /// with Strategy::Starve: when non-empty the victim is held back only while it is parked at
+    /// one of these sites, and only until `hold_steps` steps of other threads have passed; at
+    /// every other point it is scheduled like any other thread
+    #[serde(default)]
+    pub hold_sites: Vec<String>,
+    #[serde(default)]
+    pub hold_steps: u64,
 }
 
 impl Default for SimConfig {
@@ -70,6 +77,8 @@ impl Default for SimConfig {
             liveness_limit_ns: 120_000_000_000,
             pct_horizon: 2_000,
             frozen_wall: false,
+            hold_sites: Vec::new(),
+            hold_steps: 0,
         }
     }
 }
@@ -119,6 +128,8 @@ struct ThreadInfo {
     last_site: &'static str,
     /// step at which this thread was last given the baton (weak fairness)
     last_run: u64,
+    /// step at which this thread last arrived at a scheduling point
+    parked_at: u64,
 }
 
 struct Slot {
@@ -283,6 +294,7 @@ impl Sim {
                 op_label: "",
                 last_site: "start",
                 last_run: 0,
+                parked_at: 0,
             });
             g.current = 0;
         }
@@ -649,6 +661,7 @@ impl Sim {
         }
 
         g.steps += 1;
+        g.threads[me].parked_at = g.steps;
         if g.steps > g.cfg.max_steps {
             let max = g.cfg.max_steps;
             self.fatal(g, FatalKind::Budget, format!("step budget {max} exhausted"));
@@ -689,6 +702,21 @@ impl Sim {
                     best
                 } else {
                     0
+                }
+            }
+            Strategy::Starve(v) if !g.cfg.hold_sites.is_empty() => {
+                // targeted hold: the victim waits at the listed sites until the other threads
+                // have taken `hold_steps` steps, and is an ordinary thread everywhere else
+                let victim = (v as usize) % g.threads.len();
+                let held = g.cfg.hold_sites.iter().any(|s| s == g.threads[victim].last_site)
+                    && g.steps.saturating_sub(g.threads[victim].parked_at) < g.cfg.hold_steps;
+                let others: Vec<usize> = (0..enabled.len())
+                    .filter(|k| enabled[*k].0 != victim)
+                    .collect();
+                if held && !others.is_empty() {
+                    others[(draw % others.len() as u32) as usize]
+                } else {
+                    (draw % n) as usize
                 }
             }
             Strategy::Starve(v) => {
@@ -874,6 +902,7 @@ impl Controller for Sim {
                 op_label: "",
                 last_site: "spawn",
                 last_run: steps_now,
+                parked_at: steps_now,
             });
             g.hash.u64(0x5AA0 ^ id as u64);
         }
